@@ -35,7 +35,10 @@ def shard_env(k):
 @st.composite
 def tomo_case(draw, n=None):
     n = n or draw(st.sampled_from([1, 1, 2, 2, 2, 3]))
-    if n >= 2 and draw(st.booleans()):
+    kind = draw(st.integers(0, 3))
+    if kind in (0, 3):
+        prog = draw(qubits.clifford_program(n, max_gates=6))       # exact zeros in the state
+    elif n >= 2 and kind == 1:
         prog = draw(qubits.entangling_program(n, max_heralded=1))
     else:
         prog = draw(qubits.qubit_program(n, max_gates=5 if n < 3 else 4, max_heralded=1))
@@ -43,7 +46,8 @@ def tomo_case(draw, n=None):
         # heralds declared directly on the base circuit (outside the qubit modes)
         prog = dict(prog)
         prog["pad"] = draw(st.sampled_from([[1, 0], [0, 1], [1, 1], [2, 0]]))
-    return {"prog": prog, "edit": draw(st.booleans()), "edit_seed": draw(st.integers(0, 999))}
+    return {"prog": prog, "edit": draw(st.booleans()), "edit_seed": draw(st.integers(0, 999)),
+            "ulp_seed": draw(st.one_of(st.none(), st.integers(0, 10 ** 6)))}
 
 
 def run_tomo(case):
@@ -57,7 +61,9 @@ def run_tomo(case):
 
     def experiment(circuits):
         received.append(list(circuits))
-        return [qubits.exact_counts(c, n, [1, 0] * n) for c in circuits]
+        us = case.get("ulp_seed")
+        return [qubits.exact_counts(c, n, [1, 0] * n, qubits.ulp_choice(us, i))
+                for i, c in enumerate(circuits)]
 
     tomo = call("StateTomography()", tomography.StateTomography, n, base, experiment)
     snap = snapshot(base)
@@ -143,7 +149,22 @@ def run_tomo(case):
         labels.add("heralded-gate")
     if "pad" in prog:
         labels.add("heralds-declared-on-base-circuit")
+    if case.get("ulp_seed") is not None:
+        labels.add("last-place-rounding-varied")
     return {"nontrivial": nonreal or entangled, "labels": sorted(labels)}
+
+
+def bell_family(full):
+    """pre(q0) pre(q1) H(q0) CNOT post(q0) post(q1) over named single-qubit gates: pure states with exactly
+    vanishing populations and coherences, with the callback's last-place rounding varied per case."""
+    names = ["I", "X", "Y", "Z", "H", "S", "Sadj"]
+    for idx, (a, b, c, d) in enumerate(itertools.product(names, repeat=4)):
+        if not full and idx % 3:
+            continue
+        for rep in range(6 if full else 4):
+            yield {"prog": {"n": 2, "gates": [[a, 0, {}], [b, 1, {}], ["H", 0, {}],
+                                              ["CNOT", 0, {"target_qubit": 1}], [c, 0, {}], [d, 1, {}]]},
+                   "edit": False, "edit_seed": 0, "ulp_seed": idx + 5000 * rep}
 
 
 def subs(tier):
@@ -151,5 +172,6 @@ def subs(tier):
     return [
         Sub("one-qubit", run_tomo, strategy=tomo_case(1), examples=60 if q else 2000),
         Sub("two-qubit", run_tomo, strategy=tomo_case(2), examples=50 if q else 1500),
+        Sub("bell-family", run_tomo, cases=lambda: bell_family(full=not q), exhaustive=True),
         Sub("three-qubit", run_tomo, strategy=tomo_case(3), examples=12 if q else 300),
     ]
